@@ -123,8 +123,16 @@ func (value Value) Compare(other Value) int {
 			return -1
 		} else if value.Float > other.Float {
 			return 1
-		} else {
+		} else if value.Float == other.Float {
 			return 0
+		}
+		// At least one side is NaN. NaN equals NaN and sorts after every other float, so that the order stays total.
+		if valueNaN, otherNaN := value.Float != value.Float, other.Float != other.Float; valueNaN && otherNaN {
+			return 0
+		} else if valueNaN {
+			return 1
+		} else {
+			return -1
 		}
 
 	case TypeIDBoolean:
@@ -260,7 +268,13 @@ func (value Value) hash(hash uint64) uint64 {
 		hash = fnv1a.AddUint64(hash, uint64(value.Int))
 
 	case TypeIDFloat:
-		hash = fnv1a.AddUint64(hash, math.Float64bits(value.Float))
+		f := value.Float
+		if f == 0 {
+			f = 0 // -0.0 compares equal to +0.0, so it has to hash like +0.0
+		} else if f != f {
+			f = math.NaN() // all NaN bit patterns compare equal
+		}
+		hash = fnv1a.AddUint64(hash, math.Float64bits(f))
 
 	case TypeIDBoolean:
 		if value.Boolean {
